@@ -3,6 +3,22 @@ import vlib
 
 PROPS_MODULE = "Q1t.Props.C09"
 
+def spec_check(ctx, reqs, impl):
+    """(B): the property evaluated directly - every execute / reexecute of the object compared with an independent reference
+    (fresh object, direct parameters, one run of everything since the last execute, same generator stream)."""
+    fails = []
+    n = 0
+    for i, (r, a) in enumerate(zip(reqs, impl)):
+        if r.startswith("prop |"):
+            n += 1
+            if a != "same":
+                kind = r.split("|")[1].strip()
+                fails.append({"index": i, "req": r, "impl": a, "class": kind, "why": "fail %s %s" % (kind, a)})
+    ctx.coverage["B_evaluated"] = n
+    ctx.oblige("spec evaluation (B) ran on %d runs" % n, n > 0, "")
+    return fails
+
+
 SPEC = {
     "tables": [],
     "props_module": PROPS_MODULE,
@@ -10,13 +26,16 @@ SPEC = {
     "drivers": ["drv_c09"],
     "harness_bin": "c09",
     "eq": vlib.hexfloat_eq(1e-9),
+    "spec_check": spec_check,
     "nontrivial": lambda r, a: r.startswith("call") or r.startswith("step | gate") or r.startswith("step | measure") or r.startswith("step | reset"),
     "rule": "generated histories (2..7 calls) on one real Circuit object holding gates with Rc<RefCell<f64>> reference parameters: "
             "execute_with(vector) / reexecute_with_rng / assignment to a cell / histogram()+cstate() queries, incl. reexecute and queries "
             "before any execution. Every traced operation of every run is re-executed by the Lean model from the state the PREVIOUS call "
             "ended in (re-execution) or from the fresh state with a zero register (execution), with reference parameters resolved to the "
             "cell values current at that run, using the implementation's logged draws; the history machine answers the not-executed calls. "
-            "Non-trivial = a call line or a step that changes state; distinct = distinct request line.",
+            "(B) after every run the object's register and quantum state are compared with an independent reference: a fresh Circuit "
+            "holding the cell values of each run as direct parameters and executing, in one run from the same generator stream, everything "
+            "since the last execute. Non-trivial = a call line or a step that changes state; distinct = distinct request line.",
 }
 
 
